@@ -66,17 +66,18 @@ func opts(tier string, idx int) genOpts {
 	return genOpts{maxNS: 4, maxPods: 10, maxPol: 5}
 }
 
-// caseCount: quick per the design (150 pairs / 200 clusters); thorough goes well beyond the design's 5 000 because a
+// caseCount: ten times the design's quick bounds (150 pairs / 200 clusters) and far beyond its thorough 5 000, because a
 // case costs about a millisecond.
 func caseCount(prop, tier string) int {
 	if prop == "C15" {
-		return evid.Tiered(tier, 150, 100000)
+		return evid.Tiered(tier, 1500, 400000)
 	}
-	return evid.Tiered(tier, 200, 100000)
+	return evid.Tiered(tier, 2000, 400000)
 }
 
 var c16Quota = []string{"empty-from", "empty-to", "ports-only", "pod+ns-peer", "pod+ns-peer-with-pod-outside-ns-selector",
-	"podsel-peer-other-ns", "ingress-only+egress-only", "egress-only-lists-ingress", "ipblock-except", "default-deny",
+	"podsel-peer-other-ns", "ingress-only+egress-only", "egress-only-lists-ingress", "ipblock-except", "ipblock-zero",
+	"ipblock-sibling-except", "ns-peer", "default-deny",
 	"unselected-on-node-pod", "policytypes-defaulted", "policytypes-explicit"}
 
 func main() {
@@ -501,6 +502,9 @@ func parentMain(fl *evid.Flags) int {
 		}
 		if run.Counter("flows_compared") < int64(n)*50 {
 			run.Inconclusive(fmt.Sprintf("only %d flows compared", run.Counter("flows_compared")))
+		}
+		if run.Counter("same_node_egress-allow_ingress-deny") == 0 {
+			run.Inconclusive("no same-node flow with egress allowed and ingress denied was observed")
 		}
 		if run.Counter("checks_on_isolated_pod") == 0 || run.Counter("checks_on_unisolated_pod") == 0 {
 			run.Inconclusive("isolated / unisolated pods not both observed")
